@@ -257,7 +257,7 @@ impl Worksheet {
             && row_at(final(self).rows@, row as int).height == row_at(old(self).rows@, row as int).height && row_at(final(self).rows@, row as int).custom_height == row_at(old(self).rows@, row as int).custom_height && row_at(final(self).rows@, row as int).hidden == row_at(old(self).rows@, row as int).hidden,
 //@rewrite `-> Result<(), String>` => `-> (r: Result<(), String>)`
 //@rewrite `let mut index = None;` => `let mut index: Option<usize> = None;`
-//@rewrite `for (i, r) in self.rows.iter().enumerate() {` => `let mut __i: usize = 0; while __i < self.rows.len() { let i = __i; let r = &self.rows[__i]; __i += 1;`
+//@forwhile 1
 //@loop 1
             invariant_except_break
                 index.is_none(),
